@@ -531,6 +531,40 @@ class C20(Profile):
         return ops
 
 
+class C18(Profile):
+    prop = "C18"
+    name = "C18"
+    level = "fault_enumeration"
+    weights = {"create_block": 2, "create_array": 5, "append_dim": 7, "create_section": 6, "create_property": 9,
+               "prop_values": 3, "set_attr": 5, "create_group": 1, "create_tag": 1, "link_append": 1,
+               "upgrade_experiment": 7, "upgrade_uptodate": 1}
+    owned = ("upgrade_",)
+    reopen_introspect = False
+    never_off = ("upgrade_experiment", "create_section", "create_property", "create_array", "append_dim")
+    late_ops = ("upgrade_experiment", "upgrade_uptodate")
+    build_fraction = 0.55
+    fault_kinds = ("upgrade:interruptions", "upgrade:double_interruptions")
+
+    def tune_knobs(self, k, rng):
+        k["names"] = ["s", "t", "u", "a", "b", "p.q", "ünï", "x y"]
+        k["dup_rate"] = 0.0
+        k["max_blocks"] = rng.randint(1, 2)
+        k["max_per"] = rng.randint(1, 5)
+        k["max_branch"] = rng.randint(1, 3)
+        k["max_depth"] = rng.randint(1, 3)
+        k["max_rank"] = rng.randint(1, 2)
+        k["min_extent"] = 1
+        k["max_extent"] = 4
+        k["dtypes"] = ["float64", "int32", "float32"]
+        k["walk_every"] = 0
+        k["n_ops"] = rng.randint(8, 30)
+        k["set_kinds"] = ["array", "section", "prop"]
+        k["vias"] = [0]
+        k["dim_kinds"] = ["range_self", "range_self", "range_self", "sample", "range", "set"]
+        if rng.random() < 0.6:
+            k["max_rank"] = 1
+
+
 ALL_MUTATING = dict(STRUCT_WEIGHTS, data_write=2, data_assign=2, data_append=2, data_resize=1)
 
 
@@ -604,3 +638,4 @@ register(C17())
 register(C15())
 register(C16())
 register(C20())
+register(C18())
